@@ -499,3 +499,55 @@ func (d *jsonDec) utf8len() (int, int) {
 	}
 	return n, OK
 }
+
+// Sanitise: what a JSON encoder may do with invalid UTF-8 in a string (the property
+// allows replacing it by U+FFFD): every maximal invalid byte becomes U+FFFD, valid
+// sequences are kept. Mirrors encoding/json: one replacement per invalid byte.
+func Sanitise(in []byte) []byte {
+	d := &jsonDec{in: in}
+	var out []byte
+	for d.pos < len(in) {
+		c := in[d.pos]
+		if c < 0x80 {
+			out = append(out, c)
+			d.pos++
+			continue
+		}
+		n, cl := d.utf8lenNoTag()
+		if cl != OK {
+			out = appendRune(out, 0xfffd)
+			d.pos++
+			continue
+		}
+		out = append(out, in[d.pos:d.pos+n]...)
+		d.pos += n
+	}
+	return out
+}
+
+// utf8lenNoTag is utf8len for callers without a harness handle; a sequence cut by the
+// end of the input is invalid here.
+func (d *jsonDec) utf8lenNoTag() (int, int) {
+	n, cl := d.utf8len()
+	if cl == Truncated {
+		return 0, Unclear
+	}
+	return n, cl
+}
+
+// ValidUTF8 reports whether b is valid UTF-8 (RFC 3629).
+func ValidUTF8(b []byte) bool {
+	d := &jsonDec{in: b}
+	for d.pos < len(b) {
+		if b[d.pos] < 0x80 {
+			d.pos++
+			continue
+		}
+		n, cl := d.utf8lenNoTag()
+		if cl != OK {
+			return false
+		}
+		d.pos += n
+	}
+	return true
+}
